@@ -69,7 +69,7 @@ CLAIMED.update({
             "Trusted: plan reference (~90 lines); memory safety decided at the level 'no out-of-range unchecked access on any explored history'. Miri / ASan not run (DESIGN 6)."),
     "C15": ("dsp", "exploration",
             "Every EstTimeNet built in the dsp scenarios (0-9 alternative sidings, both directions): mutual link consistency, no dead end / cycle, 24 seeded start-to-end walks per graph (contiguous route origin -> destination, cleared after entered, in entry order), finite non-negative times and durations, time_sched = primary predecessor + duration and <= along alternates; yaml reload equal. Weak fit: the graph is a pure function of (train, network); checked where it is handed to the dispatcher (DESIGN 5).",
-            "Trusted: graph reference (~150 lines). Two open findings (negative time_sched on alternative branches; structural self-check panic on very short networks)."),
+            "Trusted: graph reference (~150 lines). One open finding (negative time_sched on alternative branches); the structural self-check panics on routes shorter than the 5-mile look-ahead were repaired."),
 })
 
 CLAIMED.update({
